@@ -175,6 +175,39 @@ func c10Build() *c10World {
 		bundle.Read(bytes.NewReader(in))
 	}}
 	w.targets = append(w.targets, w.bundleRead)
+	// --- the variants-value string of a b1 index entry (parsed as a structured list by the reader):
+	// string-level mutations with the index and section table re-encoded consistently
+	for _, vb := range c05BaseList {
+		if vb.name != "b1-var" {
+			continue
+		}
+		vb := vb
+		vi := -1
+		for i, e := range vb.ref.Index {
+			if len(e.Variants) > 0 {
+				vi = i
+			}
+		}
+		if vi < 0 {
+			panic("c10: base b1-var has no variants-value")
+		}
+		w.targets = append(w.targets, &c10Target{name: "bundle.Read(hostile variants-value)", artifacts: []*c10Artifact{{name: "variants-value", data: append([]byte{}, vb.ref.Index[vi].Variants...)}}, run: func(in []byte) {
+			r := vb.ref
+			entries := append([]refbx.IndexEntry{}, r.Index...)
+			entries[vi].Variants = in
+			var names []string
+			var data [][]byte
+			for i, sec := range r.Sections {
+				names = append(names, sec.Name)
+				if sec.Name == "index" {
+					data = append(data, refbx.EncodeIndex(r.Version, entries))
+				} else {
+					data = append(data, r.SectionData[i])
+				}
+			}
+			bundle.Read(bytes.NewReader(refbx.Rebuild(r.Version, r.Prefix, names, data)))
+		}})
+	}
 	// --- dump-bundle's flow on a hostile signed bundle: Read, then NewVerifier on whatever
 	// signatures section came back, then VerifyExchange on every exchange
 	var sbArts []*c10Artifact
@@ -455,7 +488,17 @@ func init() {
 				return &c10Case{target: t, input: in, op: "raw:" + hx(in)}
 			}
 			file := a.data
-			switch c.Dev(5, "mutation") {
+			switch c.Dev(7, "mutation") {
+			case 5: // one byte deleted
+				off := c.Free(len(file), "delete")
+				out := append(append([]byte{}, file[:off]...), file[off+1:]...)
+				return &c10Case{target: t, input: out, op: fmt.Sprintf("%s:delete@%d", a.name, off)}
+			case 6: // one byte inserted (separators and delimiters of the text grammars, CBOR heads, extremes)
+				off := c.Free(len(file)+1, "insert")
+				vals := []byte{';', ',', '=', '"', '\\', '*', ' ', 0x00, 0xff, 'a', '1', 0x5b, 0x9b}
+				nv := vals[c.Free(len(vals), "value")]
+				out := append(append(append([]byte{}, file[:off]...), nv), file[off:]...)
+				return &c10Case{target: t, input: out, op: fmt.Sprintf("%s:insert@%d=%02x", a.name, off, nv)}
 			case 0:
 				return &c10Case{target: t, input: file, op: a.name + ":unmutated"}
 			case 1: // CBOR length/count head replaced by a boundary value
@@ -509,7 +552,7 @@ func init() {
 	register(&mc.Property{
 		ID:          "C10",
 		Level:       "model_checking",
-		Rule:        "choice-tree enumeration of hostile inputs for every parser entry point (bundle.Read, ReadExchange, Exchange.Verify with hostile file / hostile cert chain, ReadCertChain, bundle signature NewVerifier+VerifyExchange on properly signed hostile subsets, both structured-header parsers, MI decoder for both drafts on hostile streams and on hostile digest-header strings, Exchange.Verify with a hostile Signature header string, every cbor.Decoder method, integrity-block detection on a reader and on a file), executed in watchdog-supervised workers under ulimit -v: valid artifacts of every format with one mutation (every CBOR length/count head x 11 boundary values, every fixed-width length field x boundary values, truncation at every offset, every byte x 8 values quick / 256 thorough) and all raw strings up to 3 bytes over a 21-byte alphabet (thorough: all strings <= 2 bytes, <= 4 reduced) with integrity-block tails. Monitor: returns (no panic, no crash, no hang) and heap allocation <= 64 MiB + 64 x len(input) (runtime/metrics). Every case is non-trivial (the monitor applies to all); distinct by (entry point, input).",
+		Rule:        "choice-tree enumeration of hostile inputs for every parser entry point (bundle.Read, ReadExchange, Exchange.Verify with hostile file / hostile cert chain, ReadCertChain, bundle signature NewVerifier+VerifyExchange on properly signed hostile subsets, both structured-header parsers, MI decoder for both drafts on hostile streams and on hostile digest-header strings, Exchange.Verify with a hostile Signature header string, bundle.Read with a hostile variants-value string in a consistently re-encoded b1 index, every cbor.Decoder method, integrity-block detection on a reader and on a file), executed in watchdog-supervised workers under ulimit -v: valid artifacts of every format with one mutation (every CBOR length/count head x 11 boundary values, every fixed-width length field x boundary values, truncation at every offset, every byte x 8 values quick / 256 thorough, every byte deleted, one of 13 bytes inserted at every position) and all raw strings up to 3 bytes over a 21-byte alphabet (thorough: all strings <= 2 bytes, <= 4 reduced) with integrity-block tails. Monitor: returns (no panic, no crash, no hang) and heap allocation <= 64 MiB + 64 x len(input) (runtime/metrics). Every case is non-trivial (the monitor applies to all); distinct by (entry point, input).",
 		Assumptions: []string{"the allocation bound's constant covers the two 3-byte-length prologue buffers (2 x 16 MiB) the signed-exchange format itself allows", "cbor.Deterministic is not an entry point of this property (its refusal-by-panic is judged under C13)"},
 		Harnesses:   []*mc.Harness{h},
 		Guard: func(s map[string]*mc.Stats) error {
